@@ -52,7 +52,8 @@ pub fn lookup_paths(thorough: bool) -> Vec<&'static str> {
 }
 
 pub fn setup_for(backend: &str) -> Setup {
-    Setup { jail: JAIL.into(), deny: if backend == "E" { vec!["openat2".into()] } else { vec![] }, ..Default::default() }
+    // "P": old seccomp profile (EPERM for openat2 and the new mount API) - selects the emulated resolvers like "E"
+    Setup { jail: JAIL.into(), deny: if backend == "E" { vec!["openat2".into()] } else if backend == "P" { crate::wk::Wk::old_profile_deny() } else { vec![] }, ..Default::default() }
 }
 
 /// Warm-up: open the Root and initialise every process-global lazy (backend probe, procfs handle, protected_symlinks sysctl)
